@@ -10,7 +10,7 @@
 //                helper thread (an item cannot wait for it: the queue is serial),
 //   activators   (inactive rounds) one or two threads call dispatch_activate at a random moment.
 // At the end every owed dispatch_resume is issued, the activation is made sure of, and the round waits until every
-// submitted item has run (watchdog: "everything runs after the final resume").
+// submitted item has run (watchdog, progress-based: given up when no item has started for 20 s).
 //
 // usage: c06_slanes <seed> <rounds> <perturb_permille> [scale]
 // output:
@@ -44,6 +44,7 @@ static dispatch_queue_t cur_q;
 static pthread_barrier_t bar;
 
 #include <signal.h>
+#include <time.h>
 static void on_crash(int sig) {
 	// a client crash of the library (e.g. "Over-resume of an object"): keep the recording, it shows how the word got there
 	atomic_store(&dv_enabled, 0);
@@ -180,6 +181,9 @@ int main(int argc, char **argv) {
 		int nsub = 1 + (int)((r >> 33) % MAXS), nctl = 1 + (int)((r >> 37) % MAXC);
 		int inactive = ((r >> 41) % 3 == 0), nact = inactive ? 1 + (int)((r >> 43) % 2) : ((r >> 43) % 5 == 0 ? 1 : 0);
 		int deep = ((r >> 45) % 3 == 0) ? (int[]){ 62, 64, 66, 70, 96, 100 }[(r >> 47) % 6] : 0;
+		// every run of at least three rounds reaches the side-counter path and the activation of an inactive queue
+		if (i == 1 && !deep) deep = 64 + (int)((r >> 47) % 8);
+		if (i == 2 && !inactive) { inactive = 1; nact = 1 + (int)((r >> 43) % 2); }
 		char lbl[32]; snprintf(lbl, sizeof lbl, "c06s%d", i);
 		dispatch_queue_attr_t at = DISPATCH_QUEUE_SERIAL;
 		if (inactive) at = dispatch_queue_attr_make_initially_inactive(at);
@@ -213,14 +217,20 @@ int main(int argc, char **argv) {
 		pthread_barrier_destroy(&bar);
 		int total = atomic_load(&next_ticket); if (total > MAXITEMS) total = MAXITEMS;
 		// every suspension taken by an item is resumed by the helper; new ones appear as long as items run
-		int ok = 0, last_ran = -1, still = 0;
-		for (int w = 0; w < 400000; w++) {
+		// progress-based watchdog: the round is given up only when NO item has started for 20 s of monotonic time (whatever the
+		// machine load, a runnable queue with a free root-queue worker starts an item in far less)
+		int ok = 0, last_ran = -1; struct timespec tp; clock_gettime(CLOCK_MONOTONIC, &tp);
+		double last_progress = (double)tp.tv_sec + 1e-9 * (double)tp.tv_nsec;
+		for (;;) {
 			uint64_t st = *(volatile uint64_t *)&dl->dq_state;
 			if (atomic_load(&ran) == total && atomic_load(&owed) == 0 && atomic_load(&n_susp) == atomic_load(&n_res) &&
 					!(st & DISPATCH_QUEUE_DRAIN_OWNER_MASK) && !(st & DISPATCH_QUEUE_ENQUEUED) && !_dq_state_is_in_barrier(st) &&
 					dl->dq_items_tail == NULL) { ok = 1; break; }
-			if (atomic_load(&ran) != last_ran) { last_ran = atomic_load(&ran); still = 0; }
-			else if (++still > 60000) break;   // nothing ran for 3 s although nothing is suspended any more: stranded
+			clock_gettime(CLOCK_MONOTONIC, &tp);
+			double now = (double)tp.tv_sec + 1e-9 * (double)tp.tv_nsec;
+			int progress = atomic_load(&ran) + atomic_load(&n_res);
+			if (progress != last_ran) { last_ran = progress; last_progress = now; }
+			else if (now - last_progress > 20.0) break;   // stranded: report and stop
 			usleep(50);
 		}
 		atomic_store(&stop_helper, 1); pthread_join(thh, NULL);
